@@ -80,3 +80,36 @@ func verifHarness_C19_release() {
 		verifReach("delivered")
 	})
 }
+
+// A closer gives a poller slot back (operatorCache.freeable: wait for the slot token, then wipe
+// the operator) while the poller, holding the token, reads the operator's fields to dispatch an
+// event. The token protocol (do/done against unused) is what orders the wipe after the
+// poller's reads.
+//
+//verif:po
+//verif:bounds 1 operator; closer: freeable once; poller: 1 dispatch (token, plain reads of FD / OnRead / Inputs, token back); the closer's wait for the token is unrolled 3 times
+//verif:loop 40
+//verif:poloop 3
+//verif:potimeout 300
+func verifHarness_C19_opfree() {
+	verifK = &verifKMon{}
+	cache := newOperatorCache()
+	op := cache.alloc()
+	op.FD = 7
+	op.OnRead = func(p Poll) error { return nil }
+	op.inuse()
+	verifThread("closer", func() {
+		cache.freeable(op)
+		verifReach("freed")
+	})
+	verifThread("poller", func() {
+		if op.do() {
+			fd := op.FD
+			on := op.OnRead
+			in := op.Inputs
+			_, _, _ = fd, on, in
+			op.done()
+		}
+		verifReach("dispatched")
+	})
+}
